@@ -16,7 +16,9 @@ pub const NAMES: &[&str] = &[
     "counter_values",
     "rank_patterns",
     "model_impl_validity_disagreements",
+    "accepted_fen_strings",
 ];
+const ACCEPTED: usize = 7;
 const BRT: usize = 0;
 const RRT: usize = 1;
 const EPM: usize = 2;
@@ -153,11 +155,40 @@ fn raw_universe(run: &mut Run) {
     });
 }
 
+/// (iii) for any text the parser accepts, parse - format - parse is stable
+fn accepted_stable(ctx: &mut Ctx, t: &str) {
+    ctx.states += 1;
+    set_slot_text(1, t);
+    let r = match guarded(|| RawBoard::from_fen(t)) {
+        Ok(r) => r,
+        Err(m) => {
+            ctx.violate(json!({"kind": "fen_text", "text": t}), format!("RawBoard::from_fen({:?}) panicked: {}", t, m));
+            return;
+        }
+    };
+    let Ok(r) = r else { return };
+    ctx.add(ACCEPTED, 1);
+    ctx.transitions += 2;
+    ctx.traces += 1;
+    let f = r.as_fen();
+    match RawBoard::from_fen(&f) {
+        Ok(r2) if r2 == r && r2.as_fen() == f => {}
+        other => ctx.violate(json!({"kind": "fen_text", "text": t}), format!("{:?} parses to `{}`, which parses back to {:?}", t, f, other.map(|x| x.as_fen()))),
+    }
+    if let Ok(b) = Board::from_fen(t) {
+        let f = b.as_fen();
+        match Board::from_fen(&f) {
+            Ok(b2) if full(&b2) == full(&b) && b2.as_fen() == f => {}
+            other => ctx.violate(json!({"kind": "fen_text", "text": t}), format!("{:?} parses to the position `{}`, which parses back to {:?}", t, f, other.map(|x| x.as_fen()))),
+        }
+    }
+}
+
 pub fn run(run: &mut Run) {
     run.counter_names = NAMES;
     run.assumptions = vec![
         "independent FEN writer and reader of the reference model (text.rs)".into(),
-        "parse-format-parse stability for arbitrary accepted strings is exercised by C12's FEN universe".into(),
+        "accepted FEN strings: a field product of 40 board fields x 7 sides x 9 castlings x 10 marks x 10 x 10 counter spellings, plus every single-edit neighbour of 40 canonical records".into(),
     ];
     let thorough = run.thorough();
     let sel = if thorough {
@@ -167,10 +198,23 @@ pub fn run(run: &mut Run) {
     };
     run_universes(run, &sel, DISAGREE, &check_pos);
     raw_universe(run);
+    crate::props::c12::fen_product(run, &|ctx, t| accepted_stable(ctx, t));
+    crate::props::c12::fen_edits(run, &|ctx, t| accepted_stable(ctx, t));
 }
 
 pub fn replay(case: &Value, ctx: &mut Ctx) {
     match case["kind"].as_str() {
+        Some("fen_text") => {
+            if let Some(t) = case["text"].as_str() {
+                accepted_stable(ctx, t);
+            }
+        }
+        Some("str") => {
+            let bytes: Vec<u8> = case["text_bytes"].as_array().map(|a| a.iter().filter_map(|x| x.as_u64().map(|b| b as u8)).collect()).unwrap_or_default();
+            if let Ok(t) = String::from_utf8(bytes) {
+                accepted_stable(ctx, &t);
+            }
+        }
         Some("raw") => {
             if let Some(r) = rawpos_from_json(&case["raw"]) {
                 raw_round_trip(ctx, &r);
